@@ -33,6 +33,8 @@ import (
 	"github.com/a14e/gogreement/src/analyzer"
 	"github.com/a14e/gogreement/src/annotations"
 	"github.com/a14e/gogreement/src/ignore"
+
+	"verif/harness/internal/trace"
 )
 
 func init() {
@@ -51,9 +53,10 @@ type progPkg struct {
 }
 
 type program struct {
-	ID    string    `json:"id"`
-	Pkgs  []progPkg `json:"pkgs"`  // in dependency order (imports first)
-	Named []string  `json:"named"` // package paths given "on the command line"; empty = all
+	ID       string    `json:"id"`
+	Pkgs     []progPkg `json:"pkgs"`     // in dependency order (imports first)
+	Named    []string  `json:"named"`    // package paths given "on the command line"; empty = all
+	Schedule []string  `json:"schedule"` // optional: S:/E: tokens the actions must follow (needs -trace and -j 1)
 }
 
 type outDiag struct {
@@ -116,6 +119,9 @@ func (m mapImporter) Import(path string) (*types.Package, error) {
 // the harness.  The wrapped function calls the original Run unchanged.
 var wrapOnce sync.Once
 
+// tracer, when set (-trace), observes and gates every action (internal/trace)
+var tracer *trace.Tracer
+
 func wrapAnalyzers(all []*analysis.Analyzer) {
 	wrapOnce.Do(func() {
 		for _, a := range all {
@@ -128,6 +134,9 @@ func wrapAnalyzers(all []*analysis.Analyzer) {
 				}()
 				return orig(pass)
 			}
+		}
+		if tracer != nil {
+			tracer.Wrap(all) // outermost: Start/End events also bracket a panicking Run
 		}
 	})
 }
@@ -238,6 +247,16 @@ func analyzeProgram(p *program, o runOpts) (res progResult) {
 	}
 	all := analyzer.AllAnalyzers()
 	wrapAnalyzers(all)
+	if tracer != nil {
+		tracer.Emit(trace.Event{Ev: "Reset", ID: p.ID})
+		tracer.SetSchedule(p.Schedule)
+		defer func() {
+			if n := tracer.Remaining(); n > 0 && res.Fail == "" && res.Err == "" {
+				res.Err = fmt.Sprintf("schedule not consumed: %d tokens left", n)
+			}
+			tracer.Emit(trace.Event{Ev: "Finish", ID: p.ID})
+		}()
+	}
 	type gres struct {
 		g   *checker.Graph
 		err error
@@ -344,7 +363,17 @@ func runPrograms(args []string) int {
 	dump := fs.Bool("dump", false, "include annotationreader / ignorereader results of the named packages")
 	jobs := fs.Int("j", runtime.NumCPU(), "programs analysed concurrently")
 	timeout := fs.Duration("timeout", 60*time.Second, "per-program wall-clock bound (C10)")
+	tracePath := fs.String("trace", "", "record Start/Export/Import/End events of every action to this NDJSON file (use -j 1)")
 	_ = fs.Parse(args)
+	if *tracePath != "" {
+		t, err := trace.New(*tracePath, "")
+		if err != nil {
+			fmt.Fprintln(os.Stderr, err)
+			return 2
+		}
+		tracer = t
+		*jobs = 1
+	}
 	if *dir == "" {
 		d, err := os.MkdirTemp("", "vhrun")
 		if err != nil {
